@@ -153,6 +153,9 @@ func cmdVerify(args []string) int {
 			} else {
 				bad++
 				fmt.Printf("  FAIL %-60s %s [%s] %s\n", o.Name, o.Result, o.Solver, o.Pos)
+				if *showModel {
+					fmt.Printf("         goal: %s\n", trunc(o.Goal, 700))
+				}
 				if *showModel && o.Model != "" {
 					for _, kv := range ModelValues(o.Model, "a_") {
 						fmt.Printf("         %s = %s\n", kv[0], kv[1])
